@@ -9,6 +9,7 @@ trap 'cd /repo && git checkout -- . && git clean -fdq -- . >/dev/null 2>&1' EXIT
 missed=0
 for d in /verif/seeded/*/; do
   id=$(basename "$d"); [ -n "$1" ] && [[ "$id" != $1* ]] && continue
+  if grep -q '"retired"' "$d/meta.json"; then echo "$id: retired (see meta.json)"; continue; fi
   props=$(python3 -c "
 import json,sys
 m=json.load(open('$d/meta.json'))
